@@ -208,3 +208,21 @@ def report_violations(ctx, stats):
     for k, (detail, replay) in sorted(stats.get("viol", {}).items()):
         detail["instances"] = stats["violn"][k]
         ctx.violation(k, detail, replay)
+
+
+# ----------------------------------------------------------------------------------------------------------- C34 level
+
+def c34_cfg(n, byz, auth, maxbyz, byzprops, claims, depth, mode):
+    """mode: 'bfs' (Agreement-violating schedules are reported as ROW lines), 'sim' (edges of simulated behaviours)"""
+    l = ["SPECIFICATION SpecH", "CONSTANTS", "  N = %d" % n, "  C = %d" % dict(CONFIGS)[n],
+         "  EndorserSet <- EndorserSet%d" % n, "  CommitterSet <- CommitterSet%d" % n, "  ProposerSeq <- ProposerSeq%d" % n,
+         "  QM <- QM%d" % n, "  QS <- QS%d" % n, "  TE <- TE%d" % n,
+         "  SW_Verify = FALSE", "  SW_PerBlock = FALSE", "  SW_Proposer = FALSE",
+         "  Byz <- %s" % byz, "  AuthFields = %s" % ("TRUE" if auth else "FALSE"), "  MaxByz = %d" % maxbyz,
+         "  ByzProposals <- %s" % byzprops, "  ByzClaimSets <- %s" % claims, "  MaxDepth = %d" % depth,
+         "VIEW view", "CHECK_DEADLOCK FALSE", "CONSTRAINT Depth"]
+    if mode == "bfs":
+        l += ["CONSTRAINT AgreementOut"]
+    else:
+        l += ["CONSTRAINT InitOut", "ACTION_CONSTRAINT Edge"]
+    return "\n".join(l) + "\n"
